@@ -1248,7 +1248,7 @@ def run_property(prop, pid, tier, seed, replay=None):
                        list(zip(cases, impl_out, model_out))[::step][:4]]
         # extraction vs in-Coq evaluation on a sample
         kx = 3 if tier == "quick" else 12
-        short = [i for i in range(len(cases)) if len(cases[i]) < 2500]
+        short = [i for i in range(len(cases)) if len(cases[i]) + len(model_out[i]) < 9000]
         pick = sorted(rng.sample(short, min(kx, len(short))))
         okx, outx = core.vm_crosscheck(pid, prop.RUN_MODULE, [cases[i] for i in pick], [model_out[i] for i in pick])
         if not okx:
